@@ -156,6 +156,16 @@ fn exact2(ty: &str, op: &str, got: &G2, exp: &G2, ctx: &dyn Fn() -> String) -> R
 const SIGNS3: [&str; 8] = ["+++", "-++", "+-+", "--+", "++-", "-+-", "+--", "---"];
 const SIGNS2: [&str; 4] = ["++", "-+", "+-", "--"];
 
+/// a magnitude within 1e-12 of a power of two is that power of two (the generator asks for exact ones through their logarithm)
+fn pow2_snap(m: f64) -> f64 {
+    let p = 2f64.powi(m.log2().round() as i32);
+    if (m - p).abs() <= 1e-12 * p {
+        p
+    } else {
+        m
+    }
+}
+
 fn angle_strat() -> BoxedStrategy<f64> {
     let pi = std::f64::consts::PI;
     prop_oneof![
@@ -224,7 +234,7 @@ macro_rules! family {
                 let sp = (w[0] & 7) as usize;
                 let mut s = [T::from_f64(1.0); 3];
                 for i in 0..3 {
-                    let m = 10f64.powf(fin(w[1 + i]).clamp(-3.0, 3.0));
+                    let m = pow2_snap(10f64.powf(fin(w[1 + i]).clamp(-3.0, 3.0)));
                     s[i] = T::from_f64(if sp >> i & 1 == 1 { -m } else { m });
                 }
                 (sp, s)
@@ -357,6 +367,13 @@ macro_rules! family {
                         let e = if nu.0 == 0 {
                             let d = |j: f64, neg: bool| (1.0 + 10f64.powf(-j) * if neg { -1.0 } else { 1.0 }).log10();
                             (e.0, e.0 + d(nu.1, nu.3), e.0 + d(nu.2, nu.4))
+                        } else if nu.0 == 1 {
+                            // another tenth: volume-preserving scales 2^a, 2^b, 2^-(a+b) (exact; `scale3` snaps to the power of two):
+                            // with an exact rotation the determinant is exactly +-1 although the map is not rigid
+                            let l2 = 2f64.log10();
+                            let k = |x: f64| ((x - 5.0) / 10.5 * 9.0).floor().clamp(0.0, 8.0) - 4.0;
+                            let (a, b) = (k(nu.1), k(nu.2));
+                            (a * l2, b * l2, -(a + b) * l2)
                         } else {
                             e
                         };
